@@ -333,7 +333,9 @@ func (multi *MultiEpoch) handleGetBlock(ctx context.Context, conn *requestContex
 						}
 						// if the commission field is a string, convert it to a float
 						if asString, ok := rewardAsMap["commission"].(string); ok {
-							rewardAsMap["commission"] = asFloat(asString)
+							if f, ok := asFloat(asString); ok {
+								rewardAsMap["commission"] = f
+							}
 						}
 						// if no lamports field, add it and set it to 0
 						if _, ok := rewardAsMap["lamports"]; !ok {
@@ -521,13 +523,13 @@ func (multi *MultiEpoch) handleGetBlock(ctx context.Context, conn *requestContex
 	return nil, nil
 }
 
-func asFloat(s string) float64 {
+func asFloat(s string) (float64, bool) {
 	var f float64
 	_, err := fmt.Sscanf(s, "%f", &f)
 	if err != nil {
-		panic(err)
+		return 0, false
 	}
-	return f
+	return f, true
 }
 
 func mergeTxNodeSlices(slices [][]*ipldbindcode.Transaction) []*ipldbindcode.Transaction {
